@@ -686,3 +686,38 @@ free piece:
 +--------+-------+-------------+-----------------------------------+
 ```
 */
+
+// verification hook: the slot size decision of write_piece, without I/O.
+#[cfg(feature = "verif_hooks")]
+pub(crate) fn verif_sweep_key_slot_sizes<KT: DbMapKeyType>(
+    key_lens: &mut dyn Iterator<Item = usize>,
+    offsets: &[u64],
+    func: &mut dyn FnMut(usize, u64, u64, u32, u32, u32),
+) {
+    let piece_mgr = PieceMgr::new(&REC_SIZE_FREE_OFFSET, &REC_SIZE_ARY);
+    for key_len in key_lens {
+        let key = KT::from_bytes(&vec![0u8; key_len]);
+        let mut piece = KeyPiece::with_key_value_next(
+            key,
+            ValuePieceOffset::new(0),
+            KeyPieceOffset::new(0),
+        );
+        for &value_offset in offsets {
+            for &next_offset in offsets {
+                piece.value_offset = ValuePieceOffset::new(value_offset);
+                piece.bucket_next_offset = KeyPieceOffset::new(next_offset);
+                let (encorded_piece_len, piece_len, _key_len) = piece.encoded_piece_size();
+                let new_piece_size =
+                    piece_mgr.roundup(KeyPieceSize::new(encorded_piece_len + piece_len));
+                func(
+                    key_len,
+                    value_offset,
+                    next_offset,
+                    encorded_piece_len,
+                    piece_len,
+                    new_piece_size.as_value(),
+                );
+            }
+        }
+    }
+}
